@@ -275,7 +275,7 @@ def check_nearest(r) -> list[Fail]:
 
 
 def classify_nearest(r):
-    return r["n_atoms"] >= 2, [f"cut={r['cut']}", f"n_conf={r['n_conf']}"]
+    return r["n_atoms"] >= 2, [f"cut={r['cut']}", f"n_conf={r['n_conf']}", f"grid_spacing={r['gspacing']}"]
 
 
 def check_fields(r) -> list[Fail]:
@@ -373,7 +373,7 @@ def classify_fields(r):
 def strat_desc(tier):
     return st.fixed_dictionaries({
         "seed": st.integers(0, 10**6), "n_atoms": st.one_of(st.integers(2, 12), st.integers(2, 40)), "n_conf": st.integers(1, 4), "spread": st.sampled_from([1.5, 3.0, 6.0]),
-        "gpad": st.sampled_from([0.0, 1.0, 3.0]), "gspacing": st.sampled_from([1.0, 0.7, 1.5]), "cut": st.sampled_from([2.0, 1.0, 3.5, 0.5]), "eps": st.sampled_from([0.5, 0.0, 0.1, 1.0]),
+        "gpad": st.sampled_from([0.0, 1.0, 3.0]), "gspacing": st.sampled_from([1.0, 0.7, 1.5, 2.5, 4.0]), "cut": st.sampled_from([2.0, 1.0, 3.5, 0.5]), "eps": st.sampled_from([0.5, 0.0, 0.1, 1.0]),
         "weighted": st.booleans(),
     })
 
